@@ -8,7 +8,7 @@ from gen import httpmsggen as G
 from ref import httpstrict as S
 
 PROP = "C26"
-SIZES = dict(quick=(1, 2400), thorough=(55, 2400))          # (batches, cases per batch)
+SIZES = dict(quick=(1, 2400), thorough=(50, 2400))          # (batches, cases per batch)
 AUTO = (b"date", b"content-length", b"transfer-encoding", b"connection", b"content-type")
 RULE = ("generated server replies (send_reply / send_error / send_reply_start+chunk+end; HTTP/1.0 and 1.1, keep-alive/close, "
         "HEAD, bodiless statuses, pipelined pairs) and client requests (all method types, extension methods, adversarial URIs) "
@@ -234,9 +234,10 @@ def run(tier, seed):
     vlib.build("asan", ["h_httpmsg"])
     nb, per = SIZES[tier]
     st = {}
-    seenkeys = {}
+    conf = G.Confirmer(res, PROP, judge)
     total = 0
     for b in range(nb):
+        found = []
         r = random.Random((seed * 1000003 + b) * 31 + 26)
         cases = [G.gen_c26(r, b * per + i, tier == "thorough") for i in range(per)]
         traces = G.run_batch(res, PROP, cases, b)
@@ -253,13 +254,12 @@ def run(tier, seed):
             if census and census[0][1] != "0":
                 v.append(("%s:leak-at-case-end" % PROP, "memfault census: %s blocks live after teardown" % census[0][1]))
             for key, text in v:
-                if seenkeys.get(key, 0) < 3:
-                    seenkeys[key] = seenkeys.get(key, 0) + 1
-                    res.add_viol(key, text + " | case %d tag=%s" % (cs_.id, cs_.meta["tag"]),
-                                 dict(flavor="asan", harness="h_httpmsg", payload=dict(script=cs_.text(), meta=cs_.meta)))
+                found.append((cs_, key, text + " | tag=%s" % cs_.meta["tag"]))
                 st["viol_cases"] = st.get("viol_cases", 0) + 1
             if len(res.samples) < 4 and b == 0 and cs_.id % 601 == 7:
                 res.samples.append(dict(script=cs_.text()[:1500], tag=cs_.meta["tag"], dir=cs_.meta["dir"]))
+        conf.report(b, found)
+    st["unreproduced_on_rerun"] = conf.unreproduced
     for k, v in st.items():
         res.add_stat(k, v)
     res.evaluations = total
@@ -279,7 +279,7 @@ REG = dict(category="exploration",
            text="Runtime monitor: generated evhttp server replies (send_reply, send_error, chunked start/chunk/end) and client requests with "
                 "adversarial URIs, reason phrases, header names/values and bodies; the raw bytes captured by a plain socket peer are parsed by an "
                 "independent strict RFC 9112 parser (incl. de-chunking) and compared with the caller's arguments plus the documented automatic headers. "
-                "2.4e3 (quick) / 1.3e5 (thorough) cases under ASan/UBSan with allocation census. Sampled input space: held-on-observed, not a proof.",
+                "2.4e3 (quick) / 1.2e5 (thorough) cases under ASan/UBSan with allocation census. Sampled input space: held-on-observed, not a proof.",
            note="trusts lib/ref/httpstrict.py (own parser, tolerant only where RFC 9112 lets a recipient be); 1xx replies, Expect: 100-continue "
                 "and caller-supplied inconsistent framing headers are not generated",
            technique="reference-parser oracle on captured wire bytes + sanitizers")
